@@ -31,9 +31,9 @@ func init() { props["C14"] = runC14 }
 
 type hsAccount struct{ keys *accountdata.AccountKeys }
 
-func (a *hsAccount) Init(*app.App) error                 { return nil }
-func (a *hsAccount) Name() string                        { return accountservice.CName }
-func (a *hsAccount) Account() *accountdata.AccountKeys   { return a.keys }
+func (a *hsAccount) Init(*app.App) error               { return nil }
+func (a *hsAccount) Name() string                      { return accountservice.CName }
+func (a *hsAccount) Account() *accountdata.AccountKeys { return a.keys }
 
 type hsNodeConf struct {
 	nodeconf.Service
@@ -51,9 +51,9 @@ func (n *hsNodeConf) NodeTypes(peerId string) []nodeconf.NodeType {
 
 type hsConfig struct{ c secureservice.Config }
 
-func (c *hsConfig) Init(*app.App) error                       { return nil }
-func (c *hsConfig) Name() string                              { return "config" }
-func (c *hsConfig) GetSecureService() secureservice.Config    { return c.c }
+func (c *hsConfig) Init(*app.App) error                    { return nil }
+func (c *hsConfig) Name() string                           { return "config" }
+func (c *hsConfig) GetSecureService() secureservice.Config { return c.c }
 
 // endpoint is one secure service with its configuration.
 type hsEnd struct {
@@ -110,26 +110,26 @@ type hsPipeDir struct {
 }
 
 type hsConn struct {
-	h      *hsHarness
-	n      int
-	out    *hsEnd // dialer
-	in     *hsEnd // listener
-	toIn   *hsPipeDir
-	toOut  *hsPipeDir
+	h                       *hsHarness
+	n                       int
+	out                     *hsEnd // dialer
+	in                      *hsEnd // listener
+	toIn                    *hsPipeDir
+	toOut                   *hsPipeDir
 	closedByOut, closedByIn bool
 	// what each side consumed: sequence of authentic frame indexes, 0 for injected bytes
-	gotIn, gotOut []int
+	gotIn, gotOut         []int
 	partialIn, partialOut bool // consumed only part of some frame when the stream ended
-	resOut, resIn *hsResult
-	bytesIn, bytesOut []byte // bytes consumed by listener / dialer
-	recorded [][]byte // authentic frames dialer -> listener (for replay on other connections)
-	recordedBack [][]byte
+	resOut, resIn         *hsResult
+	bytesIn, bytesOut     []byte   // bytes consumed by listener / dialer
+	recorded              [][]byte // authentic frames dialer -> listener (for replay on other connections)
+	recordedBack          [][]byte
 }
 
 type hsResult struct {
-	err  error
-	ctx  context.Context
-	at   time.Duration
+	err error
+	ctx context.Context
+	at  time.Duration
 }
 
 // hsSide is the io.ReadWriteCloser one handshake goroutine sees.
@@ -258,8 +258,8 @@ func hsExpect(out, in *hsEnd, allowCheck bool) (ok bool, signOut, signIn bool) {
 		return false
 	}
 	versions := inSet(out.version, in.accept) && inSet(in.version, out.accept)
-	signOut = allowCheck || in.isNode    // the dialer proves and demands identity when the remote is a node or the caller asks for it
-	signIn = in.reqAuth || in.isNode      // the listener proves and demands identity when configured or when it is a node
+	signOut = allowCheck || in.isNode // the dialer proves and demands identity when the remote is a node or the caller asks for it
+	signIn = in.reqAuth || in.isNode  // the listener proves and demands identity when configured or when it is a node
 	ok = versions
 	if signIn && !signOut {
 		ok = false // listener demands a signature, dialer sends skip-verify credentials
